@@ -192,7 +192,7 @@ func runSeq(sc seqCase, replay bool) (*wk.Failure, *simrt.Result, []string, int)
 	var leak simrt.LeakInfo
 	var outcomes []string
 	done := 0
-	res := simrt.Run(simrt.Config{Budget: budget, Chooser: ch}, func() {
+	res := simrt.Run(simrt.Config{Budget: budget, Chooser: ch, NsPerStep: simrt.SpeedFor(sc.SchedSeed + uint64(sc.Variant))}, func() {
 		known := map[int]bool{}
 		for i, c := range sc.Calls {
 			simrt.ExtendBudget(int64(StepsPerByte) * int64(c.Len()+64))
@@ -325,6 +325,11 @@ func C18(c *wk.Ctx) {
 			u.Counters["sequences"]++
 			u.Counters["tasks_spawned"] += int64(res.Tasks - 1)
 			u.Counters["switches"] += res.Switches
+			u.Counters["simulated_nanoseconds"] += res.SimNanos
+			u.Counters["clock_reads"] += res.ClockReads
+			u.Counters["timers_armed"] += res.TimersArmed
+			u.Counters["timers_fired"] += res.TimersFired
+			u.Counters["clock_jumps"] += res.ClockJumps
 			if res.Budget || res.Deadlock || len(res.TaskPanics) > 0 || res.MainPanic != nil {
 				u.Counters["sequences_cut_by_c05_condition"]++
 			}
